@@ -342,8 +342,8 @@ class NetWorld(World):
                 return {"op": "break_weight", "s": s, "e": r.randrange(64)}
             if r.random() < 0.05:
                 return {"op": "inspect_edge", "s": s, "e": r.randrange(64),
-                        "how": r.choice(["constraint", "wkt", "length", "bbox", "copy", "noise", "simplify", "tail",
-                                         "all_copy", "all_copy"])}
+                        "how": r.choice(["constraint", "wkt", "length", "bbox", "bbox", "net_bbox", "copy", "noise",
+                                         "simplify", "tail", "all_copy", "all_copy"])}
             u = r.random()
             if u < self.cfg.get("reweigh", 0) and not self.cfg["road"]:
                 return {"op": "set_weight", "s": s, "e": r.randrange(64),
@@ -365,6 +365,11 @@ class NetWorld(World):
                 st = {"op": "sub_network", "s": s, "a": r.randrange(64), "cut": self._gen_cut(r, m),
                       "mode": r.choice(["TOPOLOGIC", "TOPOLOGIC", "GEOMETRIC"]),
                       "to": (s + 1) % self.cfg["sessions"] if (self.cfg["sessions"] > 1 and r.random() < 0.5) else None}
+                if r.random() < 0.15:
+                    # a request the network refuses (a junction it does not hold, or a coordinate where the
+                    # mode wants a junction): whatever it answers, the network goes on serving
+                    st.update({"refused": r.choice(["unknown", "coordinate"]), "to": None, "mode": "TOPOLOGIC"})
+                    return st
                 if st["to"] is not None and self.cfg["road"] and r.random() < 0.6:
                     # the owner of the extract generalises it and recomputes the abscissas; the owner of
                     # the full network (whose common edges changed with it) recomputes his
@@ -422,7 +427,9 @@ class NetWorld(World):
                         "mode": "GEOMETRIC", "to": None}
             return {"op": "path", "s": s, "a": r.randrange(64), "b": r.randrange(64),
                     "as_node": r.choice([False, False, False, False, True, "foreign"]), "rec": r.random() < 0.2,
-                    "scribble": r.random() < 0.25}
+                    "scribble": r.random() < 0.25,
+                    # search bounded by the known distance of the target, or by a little more
+                    "bound": r.choice([None, None, None, 0, 0, 0.25, 2.0])}
         # C10: needs abs_curv on every edge, an index and prepared distances
         if m["index"] is None or (r.random() < 0.05):
             return {"op": "index", "s": s, "frac": None if r.random() < 0.3 else
@@ -627,7 +634,7 @@ class NetWorld(World):
         w = st["w"] if st["w"] is not None else geom.length() * st.get("wf", 1.0)
         e.weight = w
         na, nb = Node(a, ENUCoords(pa[0], pa[1], 0)), Node(b, ENUCoords(pb[0], pb[1], 0))
-        if (self.ecount + len(m["edges"])) % 4 == 0:
+        if (len(pts) + len(m["edges"])) % 4 == 0:      # a function of the step and the model only
             # junctions declared first, roads afterwards (the other documented way of building a network)
             for nd in (na, nb):
                 _, exc = self.call(net.addNode, nd)
@@ -835,6 +842,11 @@ class NetWorld(World):
             rv, exc = self.call(net.shortest_path, Node(a, ENUCoords(0, 0, 0)), Node(b, ENUCoords(1, 1, 0)))
         elif st.get("as_node"):
             rv, exc = self.call(net.shortest_path, net.getNode(a), net.getNode(b))
+        elif st.get("bound") is not None and m["exact"] and not m.get("astar") and self._fw(m)[(a, b)] != INF:
+            # "cut: a maximal distance for search": a target lying within the bound is within reach
+            cut = self._fw(m)[(a, b)] + st["bound"] * self._ws()
+            self.probe("path_search_bounded_by_the_exact_distance" if st["bound"] == 0 else "path_search_bounded")
+            rv, exc = self.call(net.shortest_path, a, b, cut)
         elif rec is not None:
             rv, exc = self.call(net.shortest_path, a, b, 1e300, rec)
         else:
@@ -1147,8 +1159,9 @@ class NetWorld(World):
         for e in m["edges"]:
             g = new.getEdge(e["id"]).geom
             e["pts"] = [[o.position.getX(), o.position.getY()] for o in g]
-            e["w"] = plen(e["pts"])
-            new.getEdge(e["id"]).weight = g.length()
+            wv = g.length()             # three-dimensional: the heights are not exactly zero any more
+            new.getEdge(e["id"]).weight = wv
+            e["w"] = float(wv)
         for v in list(m["nodes"]):
             c = new.getNode(v).coord
             m["nodes"][v] = [c.getX(), c.getY()]
@@ -1214,8 +1227,12 @@ class NetWorld(World):
             _, exc = self.call(g.toWKT)
         elif how == "length":
             _, exc = self.call(g.length)
-        elif how == "bbox":
-            _, exc = self.call(g.bbox)
+        elif how in ("bbox", "net_bbox"):
+            bb, exc = self.call(g.bbox if how == "bbox" else net.bbox)
+            if exc is None and bb is not None:
+                # the box belongs to the caller, who enlarges and moves it (a map frame)
+                _, exc = self.call(lambda: (bb.addMargin(0.05), bb.translate(1.5, -2.0)))
+                self.probe("caller_edits_returned_bbox_in_place")
         elif how == "copy":
             cp, exc = self.call(g.copy)
             if exc is None:
@@ -1445,8 +1462,13 @@ class NetWorld(World):
             if exc is not None:
                 return self._unexpected("C10", exc, "recomputing abs_curv on a scaled edge geometry")
             e["pts"] = [[o.position.getX(), o.position.getY()] for o in g]      # adopted (scaling is not C10's subject)
-            e["w"] = plen(e["pts"])
-            ed.weight = g.length()
+            # the weight is what the user assigns: the length the library reports (three-dimensional --
+            # after a geographic round trip the heights are not zero --, and not C06's subject)
+            wv, exc = self.call(g.length)
+            if exc is not None:
+                return self._unexpected("C10", exc, "Track.length of an edge geometry")
+            ed.weight = wv
+            e["w"] = float(wv)
         for v in list(m["nodes"]):
             c = net.getNode(v).coord
             m["nodes"][v] = [c.getX(), c.getY()]
@@ -1470,6 +1492,13 @@ class NetWorld(World):
         if not m["edges"] or m.get("broken") is not None:
             raise Skip()
         a = self._node(m, st["a"])
+        if st.get("refused"):
+            src = "no such junction" if st["refused"] == "unknown" else ENUCoords(m["nodes"][a][0], m["nodes"][a][1], 0)
+            rv, exc = self.call(net.sub_network, src, st["cut"], "TOPOLOGIC", False)
+            self.stats["fault_fired:rejected_request"] += 1
+            self.probe("sub_network_request_refused" if exc is not None else "sub_network_request_not_refused")
+            self.observed(["refused", None if exc is None else type(exc).__name__])
+            return "rejected" if exc is not None else "ok"
         if st["mode"] == "GEOMETRIC":
             if m["index"] is not None:
                 raise Skip()        # geometric extraction through a spatial index raises TypeError on the
